@@ -33,20 +33,19 @@ Theorem indent_changes_no_other_token : forall fx n evs dt,
 Proof. intros. apply run_strip. Qed.
 Print Assumptions indent_changes_no_other_token.
 
-(* FULL statement (kept visible):
-     forall n evs dt, ws_ins (tparse (run_events None evs ..)) (tparse (run_events (Some n) evs ..))
-   is FALSE of the model and of the library (finding K-C08-1): cdata() sets m_ispreserve but not m_isprevtext and
+(* History (finding K-C08-1, repaired in /repo): for the writeCDATA that did not call setPrevText(true)
+   ([run_events false]) the full statement was FALSE: cdata() sets m_ispreserve but not m_isprevtext and
    startElement clears m_ispreserve before it indents, so a start tag after a CDATA section is indented and the
    white space becomes part of the text node: <a><![CDATA[x]]><b/></a> with indent amount 2 reads back with the
    text node "x\n  ". *)
-Theorem indent_adds_only_ws_refuted :
+Theorem indent_adds_only_ws_before_fix_witness :
   tparse (run_events false None cdata_witness (ist0, [], false)) = [PS [97] []; PT [120]; PS [98] []; PE [98]; PE [97]] /\
   tparse (run_events false (Some 2) cdata_witness (ist0, [], false)) =
     [PS [97] []; PT [120; 10; 32; 32]; PS [98] []; PE [98]; PT [10]; PE [97]; PT [10]] /\
   ~ ws_ins (tparse (run_events false None cdata_witness (ist0, [], false)))
            (tparse (run_events false (Some 2) cdata_witness (ist0, [], false))).
 Proof. exact (conj (proj1 cdata_witness_parse) (conj (proj2 cdata_witness_parse) cdata_witness_not_ws_ins)). Qed.
-Print Assumptions indent_adds_only_ws_refuted.
+Print Assumptions indent_adds_only_ws_before_fix_witness.
 
 (* with the exact guard (no start tag directly after character data written by cdata() unless characters() also
    ran since the last tag) — for EVERY event script (balanced or not), EVERY indent amount, with or without DOCTYPE:
@@ -80,6 +79,26 @@ Theorem indent_adds_only_ws_repaired : forall n evs dt,
   no_adjacent_text (tparse (run_events true (Some n) evs (ist0, [], dt))) = true.
 Proof. intros n evs dt. apply indent_adds_only_ws_guarded. apply ind_guard_repaired. discriminate. Qed.
 Print Assumptions indent_adds_only_ws_repaired.
+
+(* /repo has the repaired writeCDATA / charactersRaw (regenerated on every run; this fails to check otherwise) *)
+Theorem writeCDATA_is_repaired : cdata_sets_prevtext = true.
+Proof. reflexivity. Qed.
+Print Assumptions writeCDATA_is_repaired.
+
+(* indent_adds_only_ws — the FULL statement about the serializer as coded: for EVERY event script, EVERY configuration
+   (encoding, version, indent amount, declaration, standalone, DOCTYPE): the parsed result is the parsed result of the
+   same configuration without indenting plus new white-space-only text nodes; every other node (text nodes, attribute
+   lists) unchanged and in order; no two text nodes adjacent, so nothing was added next to existing text *)
+Theorem indent_adds_only_ws : forall c evs,
+  ws_ins (tparse (doc_tokens (mkxcfg (x_enc c) (x_v11 c) (x_encname c) None (x_decl c) (x_standalone c) (x_dtsys c) (x_dtpub c)) evs))
+         (tparse (doc_tokens c evs)) /\
+  no_adjacent_text (tparse (doc_tokens c evs)) = true.
+Proof.
+  intros c evs. split.
+  - apply indent_adds_only_ws_as_coded. rewrite writeCDATA_is_repaired. apply ind_guard_repaired. discriminate.
+  - unfold tparse. apply coalesce_no_adjacent.
+Qed.
+Print Assumptions indent_adds_only_ws.
 
 (* before coalescing: every inserted white-space node has markup (or the document boundary) on both sides *)
 Theorem indent_ws_only_between_markup : forall fx n evs dt,
@@ -116,12 +135,12 @@ Theorem text_method_concat : forall evs, balanced 0 evs = true ->
 Proof. exact text_units_are_string_value. Qed.
 Print Assumptions text_method_concat.
 
-(* "in the requested encoding" — FULL statement: ser_text k evs = the units when encode_spec accepts them, and no
-   output otherwise.  FALSE of the model and of the library (known finding K18): ISO-8859-1 and the euro sign *)
-Theorem text_method_encoding_refuted :
+(* History (finding K18, repaired in /repo): the FormatterToText that did not check representability ([ser_text])
+   wrote the substitution byte: ISO-8859-1 and the euro sign *)
+Theorem text_method_encoding_before_fix_witness :
   ser_text EncLatin1 [EText [8364]] = [26] /\ encode_spec EncLatin1 (ser_text_units [EText [8364]]) = None.
 Proof. split; vm_compute; reflexivity. Qed.
-Print Assumptions text_method_encoding_refuted.
+Print Assumptions text_method_encoding_before_fix_witness.
 
 Theorem text_method_encoding_partial : forall k evs, k <> EncUtf8 ->
   forallb (representable k) (ser_text_units evs) = true ->
@@ -142,6 +161,29 @@ Proof.
   rewrite stream_encode_representable; auto.
 Qed.
 Print Assumptions text_method_encoding_repaired.
+
+(* text_method_encoding — the FULL statement about FormatterToText as coded (/repo has the repaired characters():
+   regenerated on every run): the units of the text when the encoding can represent every one of them, an error
+   (None) otherwise; never a substitution character *)
+Theorem text_method_checks_representability_now : text_method_checks_representability = true.
+Proof. reflexivity. Qed.
+Print Assumptions text_method_checks_representability_now.
+
+Theorem text_method_encoding : forall k evs, k <> EncUtf8 ->
+  ser_text_as_coded k evs = encode_spec k (ser_text_units evs).
+Proof.
+  intros k evs Hk. unfold ser_text_as_coded. rewrite text_method_checks_representability_now.
+  apply text_method_encoding_repaired. exact Hk.
+Qed.
+Print Assumptions text_method_encoding.
+
+(* both halves together: the output of method="text" is the string-value of the result tree in the requested encoding *)
+Theorem text_method : forall k evs, k <> EncUtf8 -> balanced 0 evs = true ->
+  ser_text_as_coded k evs = encode_spec k (flat_map string_value (build evs [] [])).
+Proof.
+  intros k evs Hk B. rewrite <- text_method_concat by exact B. apply text_method_encoding. exact Hk.
+Qed.
+Print Assumptions text_method.
 
 Example text_method_instance :
   balanced 0 [EStart [97] []; EText [120]; EComment [99]; ECdata [60]; EStart [98] []; EText [121]; EEnd [98]; EEnd [97]] = true /\
